@@ -970,7 +970,7 @@ def gen_knobs(rng, case, P=None):
     total = sum(per) if per else 16
     r = rng.random()
     # dnaio needs a whole record (pair: two records for interleaved) in the buffer
-    floor = 2 * biggest + 8
+    floor = 2 * biggest + 8 + 20 * (case["input"].get("comments") or 0)
     if r < 0.25:
         buf = floor + rng.randint(0, 16)
     elif r < 0.85:
